@@ -78,9 +78,9 @@ class Engine:
         v = z3.Int(name)
         self.vars[name] = v
         if lo is not None:
-            self.add(v >= lo)
+            self.add(v >= lift_int(lo))
         if hi is not None:
-            self.add(v <= hi)
+            self.add(v <= lift_int(hi))
         return SymInt(self, v)
 
     def real(self, name, lo=None, hi=None):
